@@ -361,6 +361,14 @@ func runC14Race(_ *Env, rc *RunCtx) {
 		method, target := "GET", ""
 		var body []byte
 		tu := dom.Tuple(t)
+		tu2 := dom.Tuple(t)
+		// a third of the requests name namespaces the server does not know (each
+		// its own): error paths share state too
+		if t.Bool(1, 3) {
+			tu.NS = fmt.Sprintf("nope%d", i)
+			tu2.NS = fmt.Sprintf("nope%db", i)
+			rc.Count("probe_unknown_namespace_in_burst", 1)
+		}
 		switch k := t.Choose(6); {
 		case k == 0 && !wrote:
 			wrote = true // at most one writer: a second one would wait on pop's transaction mutex, which is not a scheduling point
@@ -370,7 +378,7 @@ func runC14Race(_ *Env, rc *RunCtx) {
 			target = "/relation-tuples/check/openapi?" + tupleURL(tu).Encode()
 		case k == 2:
 			method, target = "POST", "/relation-tuples/batch/check"
-			body, _ = json.Marshal(map[string]any{"tuples": []any{tu.API(), dom.Tuple(t).API()}})
+			body, _ = json.Marshal(map[string]any{"tuples": []any{tu.API(), tu2.API()}})
 		case k == 3:
 			target = "/relation-tuples/expand?" + url.Values{"namespace": {tu.NS}, "object": {tu.Obj}, "relation": {tu.Rel}}.Encode()
 		case k == 4:
